@@ -49,9 +49,21 @@ def run_direct(chk, n_cfg):
         outgoing = [(100 + k, rng.randrange(1, len(classes))) for k in range(rng.randrange(1, 4))]
         keys = [k for k, _c in packets + outgoing]
         ls = []
+        # registration goes through register_packet_listener or through the decorator form conn.listener(...); one decorator
+        # object may be applied to several handlers (the first configurations are scripted that way: three handlers under one
+        # decorator for each of the four listener classes)
+        scripted = cfg < 16
+        if scripted:
+            nl = max(nl, 3)
+        shared = None
         for i in range(nl):
             early, out = rng.random() < 0.5, rng.random() < 0.4
             flt = sorted(set(rng.randrange(len(classes)) for _ in range(rng.choice([0, 1, 1, 2, 3]))))
+            if scripted and i < 3:
+                early, out, flt = bool(cfg & 1), bool(cfg & 2), ([] if cfg & 4 else [0])
+            reuse = shared is not None and (scripted and i < 3 or rng.random() < 0.3)
+            if reuse:
+                early, out, flt = shared[0]
             beh = {k: rng.choice(['ret'] * 8 + ['ign', 'ign', ('raise', 500 + i)]) for k in keys}
 
             def cb(packet, i=i, beh=beh):
@@ -63,7 +75,19 @@ def run_direct(chk, n_cfg):
                     e = Boom(b[1])
                     e.code = b[1]
                     raise e
-            conn.register_packet_listener(cb, *[classes[j] for j in flt], early=early, outgoing=out)
+            if reuse:
+                shared[1](cb)
+            elif (scripted and i < 3) or rng.random() < 0.3:
+                kw = {}
+                if early or rng.random() < 0.5:
+                    kw['early'] = early
+                if out or rng.random() < 0.5:
+                    kw['outgoing'] = out
+                shared = ((early, out, flt), conn.listener(*[classes[j] for j in flt], **kw))
+                if shared[1](cb) is not cb:
+                    chk.violation('direct', 'decorator-return', {'case': {'listener': i}}, 'the listener decorator does not return the function it registered')
+            else:
+                conn.register_packet_listener(cb, *[classes[j] for j in flt], early=early, outgoing=out)
             ls.append((i, early, out, flt, beh))
         rbeh = {k: rng.choice(['ret'] * 8 + ['ign', 'ign', ('raise', 900)]) for k in keys}
 
